@@ -18,7 +18,7 @@ from .common import *
 FLAGS = ["sharedImportFromCounter", "sharedCounterAdvancesByLen", "sharedBlankFromCounter", "sharedDelGraphKeepsCounter",
          "sharedDelAllKeepsCounter", "disjointImportFromOne", "disjointCounterAfterImportLenPlusOne", "disjointBlankFromCounter",
          "disjointDelGraphKeepsCounter", "disjointDelAllKeepsCounters", "disjointPresentMeansHasNodes",
-         "disjointDirectImportReplaces"]
+         "disjointDirectImportReplaces", "sharedStoreSurvivesNewImporter", "disjointStoreSurvivesNewImporter"]
 FILTERED = ["_find_node", "_find_all_nodes", "node_exists", "add_node", "get_all_nodes_by_class",
             "get_all_nodes_by_class_and_type", "check_node_unique", "graph_exists", "extract_graph", "del_graph"]
 
@@ -118,6 +118,41 @@ def probe_disjoint(m2):
     n = st.add_blank_node_to_graph("c", Class="Link", NodeID="y3")
     f["disjointDelAllKeepsCounters"] = n == 3 and len(st.graphs["c"].nodes) == 1 and len(st.graphs.get("a", nx.Graph()).nodes) == 0
     return f
+
+
+def _held(imp, gid):
+    """number of nodes the store reached through this importer holds for graph id gid (0 = none / no such graph)"""
+    try:
+        got = imp.storage.extract_graph(gid)
+    except KeyError:
+        return 0
+    return len(got.nodes) if got is not None else 0
+
+
+def probe_importers(shell, imp_cls):
+    """the process has ONE store: an importer made later - with or without a logger of its own, after a first one made with or
+    without one - reaches the store object the earlier ones reach, with everything stored so far still in it (the models know
+    no importer at all: `Store.enter` / `DStore.enter`)"""
+    import logging
+    ok = True
+    for first in (False, True):
+        for later in ((False,), (True,), (True, False), (False, True)):
+            shell.storage_instance = None
+            lg = logging.getLogger("verif-storeflow-probe")
+            lg.propagate = False
+            if not lg.handlers:
+                lg.addHandler(logging.NullHandler())
+            imp1 = imp_cls(logger=lg) if first else imp_cls()
+            inner = shell.storage_instance
+            imp1.storage.add_graph("a", _g(2))
+            ok = ok and _held(imp1, "a") == 2
+            for k, with_logger in enumerate(later):
+                imp2 = imp_cls(logger=lg) if with_logger else imp_cls()
+                imp2.storage.add_graph("b%d" % k, _g(1, 5))
+                for imp in (imp1, imp2):
+                    ok = ok and _held(imp, "a") == 2 and _held(imp, "b%d" % k) == 1
+                ok = ok and shell.storage_instance is inner
+    return ok
 
 
 # graph ids the filter probe is run over: (the asking graph, the other graph, an id holding nothing).  "Restricts itself to the
@@ -254,6 +289,14 @@ def extract():
             m2.NetworkXGraphStorageDisjoint.storage_instance = None
     flags = dict(out["shared"])
     flags.update(out["disjoint"])
+    try:
+        flags["sharedStoreSurvivesNewImporter"] = bool(probe_importers(m1.NetworkXGraphStorage, m1.NetworkXGraphImporter))
+        flags["disjointStoreSurvivesNewImporter"] = bool(probe_importers(m2.NetworkXGraphStorageDisjoint, m2.NetworkXGraphImporterDisjoint))
+    except Exception as e:  # noqa
+        raise ExtractionError("probe importers could not be run: %r" % (e,))
+    finally:
+        m1.NetworkXGraphStorage.storage_instance = None
+        m2.NetworkXGraphStorageDisjoint.storage_instance = None
     if sorted(flags) != sorted(FLAGS) or sorted(out["filters"]) != sorted(FILTERED) or sorted(out["dfilters"]) != sorted(FILTERED):
         raise ExtractionError("probe result has unexpected fields")
     if not all(isinstance(v, bool) for v in list(flags.values()) + list(out["filters"].values()) + list(out["dfilters"].values())):
